@@ -13,5 +13,5 @@ if [ "$patch" != "-" ]; then git apply "$(realpath -m "/verif/$patch" 2>/dev/nul
 ev=/verif/evidence/$id.json
 [ -f "$ev" ] && cp "$ev" "$ev.saved.wt"
 trap 'git -C "$wt" checkout -- . ; [ -f "$ev.saved.wt" ] && mv "$ev.saved.wt" "$ev"' EXIT
-cd /verif && VERIF_REPO="$wt" bin/vcheck "$id" "$@" 2>&1 | tail -12
+cd /verif && VERIF_REPO="$wt" timeout -k 10 ${TRYMUT_TIMEOUT:-2400} bin/vcheck "$id" "$@" 2>&1 | tail -12
 echo "exit=${PIPESTATUS[0]}"
